@@ -125,6 +125,20 @@ class SolverShape:
             raise Unsupported(f'{qualname}: pass loop is not a `for <name> in ...` loop')
         self.counter = self.loop.ast.target.id
 
+    def expand(self, nid: int, e: ast.AST, depth: int = 4, stop=()) -> ast.AST:
+        from fsa.match import substitute
+        if depth <= 0:
+            return e
+        mapping = {}
+        for x in ast.walk(e):
+            if isinstance(x, ast.Name) and isinstance(x.ctx, ast.Load) and x.id in self.lf.locals and x.id not in stop and x.id not in mapping:
+                vals = self.lf.values_reaching(nid, x.id)
+                if len(vals) == 1 and vals[0][0] != PARAM and vals[0][1] is not None:
+                    site, v = vals[0]
+                    if not any(isinstance(y, (ast.Yield, ast.Await, ast.NamedExpr, ast.Lambda, ast.ListComp, ast.DictComp, ast.SetComp, ast.GeneratorExp, ast.Call)) for y in ast.walk(v)):
+                        mapping[x.id] = self.expand(site, v, depth - 1, stop)
+        return substitute(e, mapping) if mapping else e
+
     # -- generic finders -----------------------------------------------------
     def guards_of(self, nid: int) -> List[Tuple[int, str]]:
         if nid not in self._guards:
@@ -285,13 +299,10 @@ def guard_atoms(shape: SolverShape, nid: int) -> List[Tuple[ast.AST, bool, Node]
         tn = shape.cfg.nodes[tid]
         if tn.kind != 'test':
             continue
-        if lab == 'T':
-            for a in conj_atoms(tn.ast):
-                out.append((a, True, tn))
-        elif lab == 'F':
-            ds = disj_atoms(tn.ast)
-            for a in ds:
-                out.append((a, False, tn))
+        if lab in ('T', 'F'):
+            from fsa.match import nnf_atoms
+            for (a, truth) in nnf_atoms(tn.ast, lab == 'T'):
+                out.append((a, truth, tn))
     return out
 
 
@@ -512,3 +523,31 @@ def value_roles(sh: SolverShape) -> Tuple[str, str]:
     if prev is None:
         raise AnchorMissing(f'{sh.q}: no copy of `{cur}` saved before the evaluation call')
     return cur, prev
+
+
+def position_cmp(shape: SolverShape, nid: int, atom: ast.AST, src: str = 't'):
+    """Canonical integer comparison of `atom` with locals read through and the local holding the normalised
+    position replaced by the atom `P`; None if the atom is not a comparison mentioning that position."""
+    from fsa.match import substitute
+    e = atom
+    for _ in range(4):
+        mapping = {}
+        for x in ast.walk(e):
+            if isinstance(x, ast.Name) and x.id in shape.lf.locals and x.id not in mapping and not is_normalised_position(shape, nid, x.id, src):
+                vals = shape.lf.values_reaching(nid, x.id)
+                if len(vals) == 1 and vals[0][0] != PARAM and vals[0][1] is not None:
+                    v = vals[0][1]
+                    calls = [c for c in ast.walk(v) if isinstance(c, ast.Call)]
+                    if all(dotted(c.func) == 'len' for c in calls) and not any(isinstance(y, (ast.IfExp, ast.Lambda, ast.ListComp)) for y in ast.walk(v)):
+                        mapping[x.id] = v
+        if not mapping:
+            break
+        e = substitute(e, mapping)
+    c = cmp_of(e)
+    if c is None:
+        return None
+    pos_names = [k for k in c.expr.terms if k.isidentifier() and is_normalised_position(shape, nid, k, src)]
+    if not pos_names:
+        return None
+    subst = {pos_names[0]: Affine(Fraction(0), {'P': Fraction(1)})}
+    return cmp_of(e, subst).as_int()
